@@ -21,6 +21,7 @@ import (
 	"verif.local/harness/hx"
 	"verif.local/harness/px"
 	"verif.local/vrt"
+	"verif.local/vrt/vctx"
 )
 
 const (
@@ -374,6 +375,7 @@ type errInjector struct {
 }
 
 func (e *errInjector) WatchKindAggregated(ctx context.Context, k resource.Kind, ch chan<- []state.Event, opts ...state.WatchKindOption) error {
+	vrt.TouchKey("c16.shared", true)
 	e.chans = append(e.chans, ch)
 	return e.CoreState.WatchKindAggregated(ctx, k, ch, opts...)
 }
@@ -385,10 +387,11 @@ func shutdownScenario(name string, watchFail bool, q bool, bounds []int) explore
 	return explore.Scenario{
 		Name:     name,
 		MaxExecs: 600000,
+		HB:       true,
 		Desc:     fmt.Sprintf("real runtime with an output-writing probe (queue flavour=%v) and a writer; %s at a scheduler-chosen instant: Run must return (with the watch error, if injected), no runtime goroutine may stay alive, shutdown hooks run, and no commit may happen after Run returned", q, map[bool]string{true: "an Errored event is injected into the runtime's aggregated watch", false: "the context is cancelled"}[watchFail]),
 		Bounds:   bounds,
 		Body: func(x *explore.X) {
-			ctx, cancel := context.WithCancel(context.Background())
+			ctx, cancel := vctx.WithCancel(context.Background())
 			log := &hx.Log{}
 			inj := &errInjector{CoreState: hx.NewNamespaced(log)}
 			st := state.WrapCore(inj)
@@ -410,7 +413,7 @@ func shutdownScenario(name string, watchFail bool, q bool, bounds []int) explore
 			if q {
 				qp := &px.QProbe{NameV: "w", SettingsV: controller.QSettings{
 					Inputs: []controller.Input{{Namespace: hx.NS, Type: tInt, Kind: controller.InputQPrimary}}, Outputs: out,
-					ShutdownHook: func() { shutdownHook = true },
+					ShutdownHook: func() { vrt.TouchKey("c16.shared", true); shutdownHook = true },
 				}}
 				qp.OnReconcile = func(ctx context.Context, r controller.QRuntime, _ resource.Pointer) error {
 					writeOut(ctx, r)
@@ -431,7 +434,12 @@ func shutdownScenario(name string, watchFail bool, q bool, bounds []int) explore
 			if !startup {
 				vrt.Branching(false)
 			}
-			vrt.GoNamed("runtime.Run", func() { runErr = rt.Run(ctx); runDone = true; doneAt = log.Len() })
+			vrt.GoNamed("runtime.Run", func() {
+				runErr = rt.Run(ctx)
+				vrt.TouchKey("c16.shared", true)
+				runDone = true
+				doneAt = log.Len()
+			})
 			if !startup {
 				vrt.WaitQuiescent()
 				vrt.Branching(true)
@@ -439,6 +447,7 @@ func shutdownScenario(name string, watchFail bool, q bool, bounds []int) explore
 			injected := false
 			vrt.GoNamed("disturber", func() {
 				vrt.Point() // may fire at any scheduling point (one preemption) or when everything else is blocked
+				vrt.TouchKey("c16.shared", true)
 				if watchFail && len(inj.chans) > 0 {
 					injected = true
 					vrt.Select(false, vrt.SendCase(inj.chans[0]).With([]state.Event{{Type: state.Errored, Error: errWatch}}), vrt.RecvCase(ctx.Done()))
@@ -451,6 +460,7 @@ func shutdownScenario(name string, watchFail bool, q bool, bounds []int) explore
 				update(ctx, st, "a")
 			}
 			vrt.WaitQuiescent()
+			vrt.TouchKey("c16.shared", true)
 			if !runDone {
 				x.Failf("Run did not return (watchFail=%v): the runtime keeps running on a failed watch or ignores cancellation", watchFail)
 				cancel()
@@ -606,6 +616,15 @@ func build(tier string) []explore.Scenario {
 		shutdownScenario("shutdown/watch-error/qcontroller", true, true, b1),
 		shutdownScenario("shutdown/cancel/controller/during-startup", false, false, []int{0}),
 		shutdownScenario("shutdown/cancel/qcontroller/during-startup", false, true, []int{0}),
+	}
+	for i := range out {
+		if out[i].HB {
+			// unsplit (one happens-before cache per scenario): the cap bounds the single-threaded long pole
+			out[i].MaxExecs = 250000
+			if tier == "thorough" {
+				out[i].MaxExecs = 8000000
+			}
+		}
 	}
 	for _, p := range [][]outcome{{oOK}, {oErr}, {oPanic, oErr}, {oErr, oErr, oPanic}} {
 		for _, a := range []string{"none", "replace", "stop-task", "reconcile-same"} {
